@@ -37,15 +37,18 @@ def vo(expr, out="text"):
 
 
 class Case:
-    __slots__ = ("id", "entry", "S", "D", "X", "P", "cls", "expect", "known")
+    __slots__ = ("id", "entry", "S", "D", "X", "P", "cls", "expect", "known", "opts", "tag")
 
-    def __init__(self, entry, S="", D=DOC, X="", P=None, cls="", expect=None, known=None):
+    def __init__(self, entry, S="", D=DOC, X="", P=None, cls="", expect=None, known=None, opts="", tag=None):
         self.id, self.entry, self.S, self.D, self.X, self.P, self.cls, self.expect, self.known = None, entry, S, D, X, P, cls, expect, known
+        self.opts, self.tag = opts, tag
 
     def line(self):
         s = "%s|E:%s|S:%s|D:%s|X:%s" % (self.id, self.entry, b_(self.S).hex(), b_(self.D).hex(), b_(self.X).hex())
         if self.P:
             s += "|P:" + ";".join("%s=%s" % (k, b_(v).hex()) for k, v in self.P.items())
+        if self.opts:
+            s += "|O:" + self.opts
         return s
 
 
@@ -397,6 +400,159 @@ def gen_mutations(ctx, n):
         out.append(Case(r.choice("TA"), s, P={"p": p}, cls="param:expression", known=("K-new-3" if "$" in p else None)))
         out.append(Case("T", s, P={p[:40] or "q": "1"}, cls="param:name"))
     return out
+
+
+# ---------------------------------------------------------------------------------------------
+# serializer buffer-boundary sweep: every writer family x every kind of multi-unit emission, placed at
+# every alignment across the end of the writer's buffer.  The stray store of an off-by-one guard lands
+# inside the writer object (not seen by ASan), so the oracle is: same status as the reference alignment,
+# and output == reference output with the pad lengthened (computed in Python), besides crash / sanitizer
+# report / non-zero exit.
+
+SWEEP_WRITERS = [("xml", "UTF-8"), ("xml", "UTF-16"), ("xml", "ISO-8859-1"), ("xml", "US-ASCII"), ("xml", "UTF-32"),
+                 ("html", "UTF-8"), ("html", "ISO-8859-1"), ("text", "UTF-8"), ("text", "ISO-8859-1")]
+SWEEP_CONTEXTS = ["text", "attr", "comment", "pi", "cdata", "indent"]
+SWEEP_EMISSIONS = [("utf8-2", "\u00e9"), ("utf8-3", "\u20ac"), ("utf8-4/surrogate-pair", "\U0001F600"), ("lt", "<"), ("amp", "&"), ("quot", '"'),
+                   ("lf", "\n"), ("cr", "\r"), ("tab", "\t"), ("nbsp", "\u00a0"), ("cdata-end", "]]>"),
+                   ("run", "\u00e9\u00e9\u20ac\u20ac\U0001F600\U0001F600")]
+SWEEP_REFS = (3, 40)
+
+
+def sweep_sheet(method, enc, ctxk):
+    extra = " encoding='%s'" % enc
+    if ctxk == "cdata":
+        extra += " cdata-section-elements='out'"
+    if ctxk == "indent":
+        extra += " indent='yes'"
+    body = {
+        "text": "<out><xsl:value-of select='/d/@p'/><xsl:value-of select='/d/@x'/>TZ</out>",
+        "cdata": "<out><xsl:value-of select='/d/@p'/><xsl:value-of select='/d/@x'/>TZ</out>",
+        "attr": "<out q=\"{/d/@p}{/d/@x}TZ\"/>",
+        "comment": "<out><xsl:comment><xsl:value-of select='/d/@p'/><xsl:value-of select='/d/@x'/>TZ</xsl:comment></out>",
+        "pi": "<out><xsl:processing-instruction name='p'><xsl:value-of select='/d/@p'/><xsl:value-of select='/d/@x'/>TZ</xsl:processing-instruction></out>",
+        "indent": "<out q='{/d/@p}'><b><c>t</c><xsl:value-of select='/d/@x'/></b><b/></out>",
+    }[ctxk]
+    return "<xsl:stylesheet version='1.0' xmlns:xsl='%s'><xsl:output method='%s'%s/><xsl:template match='/'>%s</xsl:template></xsl:stylesheet>" % (XSLNS, method, extra, body)
+
+
+def sweep_case(method, enc, ctxk, ename, x, n):
+    src = "<d p='%s' x='%s'/>" % ("a" * n, "".join("&#x%X;" % ord(ch) for ch in x))
+    return Case("T", sweep_sheet(method, enc, ctxk), D=src, opts="full", cls="boundary:%s:%s:%s:%s" % (method, enc, ctxk, ename),
+                tag=(method, enc, ctxk, ename, x, n))
+
+
+def sweep_combos(thorough):
+    out = []
+    for method, enc in SWEEP_WRITERS:
+        for ctxk in SWEEP_CONTEXTS:
+            if method == "text" and ctxk != "text":
+                continue
+            if method == "html" and ctxk == "cdata":
+                continue
+            for ename, x in SWEEP_EMISSIONS:
+                if ctxk == "indent" and ename not in ("utf8-4/surrogate-pair", "lf", "run"):
+                    continue
+                if ename == "run" and not thorough:
+                    continue      # six characters in a row: thorough tier only (its window is up to 60 alignments wide)
+                out.append((method, enc, ctxk, ename, x))
+    return out
+
+
+def pad_units(ref_out):
+    """(unit bytes of one pad character, offset of the pad in units) located in a reference output"""
+    for codec in ("utf-32-le", "utf-32-be", "utf-16-le", "utf-16-be", "utf-8"):
+        u = "a".encode(codec)
+        i = ref_out.find(u * SWEEP_REFS[0])
+        if i >= 0 and i % len(u) == 0:
+            return u, i // len(u), codec
+    return None, None, None
+
+
+def boundary_sweep(ctx, asan, plain, sizes):
+    """returns a list of failures in the format of evaluate()"""
+    combos = sweep_combos(ctx.thorough)
+    bufsizes = sorted(set(sizes)) or [512]      # kBufferSize of the writers / XalanOutputStream, from the translator
+    # phase 1: references (two alignments far from any buffer end)
+    refs = []
+    for cb in combos:
+        for n in SWEEP_REFS:
+            refs.append(sweep_case(*cb, n))
+    for i, c in enumerate(refs):
+        c.id = "r%d" % i
+    res, events = run_cases(ctx, asan, plain, refs, 100)
+    failures = [(k, c, d, rp, known_class(c, k)) for k, c, d, rp in events if not k.endswith("-not-reproduced")]
+    ref = {}
+    for c in refs:
+        f = res.get(c.id)
+        if f is not None:
+            ref[(c.tag[:4], c.tag[5])] = f
+    cases = []
+    plan = {}
+    for cb in combos:
+        f0, f1 = ref.get((cb[:4], SWEEP_REFS[0])), ref.get((cb[:4], SWEEP_REFS[1]))
+        if f0 is None or f1 is None:
+            continue
+        if f0[0] != "0":
+            base = ("status", f0[0])
+            unit, h, codec = b"a", 50, "utf-8"
+        else:
+            o0, o1 = bytes.fromhex(f0[3]), bytes.fromhex(f1[3])
+            unit, h, codec = pad_units(o0)
+            if unit is None or o1 != o0.replace(unit * SWEEP_REFS[0], unit * SWEEP_REFS[1], 1):
+                ctx.notes.setdefault("not_judged", []).append("boundary sweep: the two reference alignments of %s do not differ by the pad only" % (cb[:4],))
+                continue
+            base = ("output", o0, unit)
+        plan[cb[:4]] = base
+        # units the emission occupies in the output (a character reference or an entity is one guarded run)
+        if base[0] == "output":
+            tail = o0.find("TZ".encode(codec), (h + SWEEP_REFS[0]) * len(unit))
+            span = ((tail // len(unit)) - h - SWEEP_REFS[0] if tail >= 0 else 16) + 3
+        else:
+            span = 12
+        span = max(6, min(span, 64))
+        if ctx.thorough:
+            # from 1: with an empty pad the event stream itself differs (no empty text node / CDATA section, no space in a PI)
+            ns = sorted(set(range(1, max(bufsizes) + 48)) | {n for b in bufsizes for n in range(2 * b - h - span, 2 * b - h + 3)})
+        else:
+            ns = sorted({n for b in bufsizes for n in range(b - h - span, b - h + 3) if n >= 1})
+        for n in ns:
+            if n not in SWEEP_REFS:
+                cases.append(sweep_case(*cb, n))
+    for i, c in enumerate(cases):
+        c.id = "b%d" % i
+    res, events = run_cases(ctx, asan, plain, cases, 120)
+    failures += [(k, c, d, rp, known_class(c, k)) for k, c, d, rp in events if not k.endswith("-not-reproduced")]
+    for c in cases:
+        ctx.cov["evaluations"] += 1
+        ctx.count("boundary:%s:%s" % (c.tag[0], c.tag[1]))
+        ctx.count("boundary-context:" + c.tag[2])
+        ctx.count("boundary-emission:" + c.tag[3])
+        f = res.get(c.id)
+        if f is None:
+            continue
+        ctx.cov["traces_validated_against_impl"] += 1
+        base = plan[c.tag[:4]]
+        n = c.tag[5]
+        what = None
+        if f[0] == "exc":
+            what = "a C++ exception left the entry point: %s" % f[1]
+        elif base[0] == "status":
+            if f[0] != base[1]:
+                what = "status %s, but status %s with a pad of %d characters" % (f[0], base[1], SWEEP_REFS[0])
+        elif f[0] != "0":
+            what = "status %s, but success with a pad of %d characters" % (f[0], SWEEP_REFS[0])
+        else:
+            exp = base[1].replace(base[2] * SWEEP_REFS[0], base[2] * n, 1)
+            got = bytes.fromhex(f[3])
+            if got != exp:
+                k = next((i for i in range(min(len(got), len(exp))) if got[i] != exp[i]), min(len(got), len(exp)))
+                what = ("output differs from the expectation (reference output with the pad lengthened) at byte %d of %d/%d: got ...%r, expected ...%r"
+                        % (k, len(got), len(exp), got[max(0, k - 6):k + 10], exp[max(0, k - 6):k + 10]))
+        if what:
+            failures.append(("buffer-boundary", c, "%s output in %s, %s context, emission %s (%r) after N=%d pad characters: %s"
+                             % (c.tag[0], c.tag[1], c.tag[2], c.tag[3], c.tag[4], n, what), [c.line()], known_class(c, "buffer-boundary")))
+    ctx.notes["boundary_sweep"] = {"combinations": len(combos), "cases": len(cases) + len(refs), "alignments_per_combination": (len(cases) // max(1, len(plan)))}
+    return failures, cases + refs
 
 
 # ---------------------------------------------------------------------------------------------
@@ -806,6 +962,9 @@ def run(ctx):
     cases = build_cases(ctx, scale)
     ctx.cov["samples"] = [("%s %s" % (c.cls, (c.X or c.S)[:100])) for c in cases[:3] + cases[len(cases) // 2: len(cases) // 2 + 3] + cases[-3:]]
     failures, hist = evaluate(ctx, asan, plain, cases)
+    bf, bcases = boundary_sweep(ctx, asan, plain, (ctx.notes.get("safe_facts") or {}).get("writer_sizes") or [])
+    failures += bf
+    cases = cases + bcases
     new = [f for f in failures if not (f[4] and f[4] in known)]
     if (not proved or ctx.broken) and not new and not ctx.thorough:
         ctx.escalated = True
